@@ -323,6 +323,12 @@ def wide_alphabet(name, Pm):
          # the cached un-shrunk original must be the broadcast object (seeded change C18-H)
          ('q', 'shrink_wide_rt', lambda x: x.shrink(_wide_am(x)).unshrink(_wide_am(x)).copy() if x.shape else x),
          ('q', 'shrink_wide', lambda x: x.shrink(_wide_am(x)).copy() if x.shape else x)]
+    if name in ('scalar_f', 'scalar_2d', 'shrunk', 'shrunk_u'):
+        # pure queries in which the object is the SECOND operand of an element-wise selection: they read its cached
+        # antimask and must not write into it (seeded change C18-L: maximum / minimum merged masks in place)
+        q += [('q', 'maximum_as_second', lambda x: Pm.Scalar.maximum(Pm.Scalar(np.full(x.shape, 1.5)), x.without_units())),
+              ('q', 'minimum_as_second', lambda x: Pm.Scalar.minimum(Pm.Scalar(np.full(x.shape, 1.5)), x.without_units())),
+              ('q', 'maximum_as_third', lambda x: Pm.Scalar.maximum(Pm.Scalar(np.full(x.shape, 1.5)), Pm.Scalar(np.full(x.shape, 0.5)), x.without_units()))]
     if name == 'poly_alias':
         q += [('q', 'partner_antimask', lambda x: x.__dict__['_c18_partner'].antimask),
               ('q', 'partner_corners', lambda x: x.__dict__['_c18_partner'].corners),
